@@ -225,7 +225,7 @@ OnVerify(ev) ==
             IF h.sel = ALLSEL THEN claims = cnf(Plain(c.at))
             ELSE (h.tc /\ h.full) => claims = cnf(View(c.at, h.sel)))
   /\ Chk("verify.clean", implok /\ creds # {}, NoReserved(claims))
-  /\ Chk("verify.calls", implok, Len(ev.calls) >= 1 /\ \A i \in DOMAIN ev.calls : ev.calls[i].iss = StrField(m.jwt.pl, "iss") /\ ev.calls[i].alg = HdrAlg(m.jwt))
+  /\ Chk("verify.calls", implok /\ "calls" \in DOMAIN ev, Len(ev.calls) >= 1 /\ \A i \in DOMAIN ev.calls : ev.calls[i].iss = StrField(m.jwt.pl, "iss") /\ ev.calls[i].alg = HdrAlg(m.jwt))
   /\ Chk("pair.format", ev.pair # 0 /\ (\E p \in st.vpairs : p.id = ev.pair),
          \A p \in {q \in st.vpairs : q.id = ev.pair} : p.ok = implok /\ (implok => p.claims = claims))
   /\ Chk("scn.expect.reject", ev.expect # NONE /\ ev.expect.v = "reject", ~implok)
